@@ -63,15 +63,15 @@ let () =
         let nd = int_of_string (next ()) in
         let p_disks = List.init nd (fun _ ->
           let ds_equal = ni () in let ds_move = ni () in let ds_restore = ni () in let ds_remove = ni () in
-          let ds_change = ni () in let ds_insert = ni () in let ds_copy = ni () in let ds_zero = nb () in
-          { ds_equal; ds_move; ds_restore; ds_remove; ds_change; ds_insert; ds_copy; ds_zero }) in
+          let ds_change = ni () in let ds_equal_links = ni () in let ds_insert = ni () in let ds_copy = ni () in let ds_zero = nb () in
+          { ds_equal; ds_move; ds_restore; ds_remove; ds_change; ds_equal_links; ds_insert; ds_copy; ds_zero }) in
         let p_scan_need_write = nb () in let p_blockmax = ni () in let p_used = ni () in
         let p_parity_access = bits (next ()) in let p_parity_open = bits (next ()) in let splits_tok = next () in let bs_tok = n_of_int (int_of_string (next ())) in
         let split_of x = (match String.split_on_char ':' x with
                           | [r; d] -> ((if r = "-" then None else Some (n_of_int (int_of_string r))), n_of_int (int_of_string d))
                           | _ -> failwith "split") in
         let p_parity_blocks = if splits_tok = "-" then [] else
-            List.map (fun lv -> valid_blocks bs_tok (List.map split_of (String.split_on_char ',' lv))) (String.split_on_char ';' splits_tok) in let p_parity_resize = bits (next ()) in let p_parity_modified = bits (next ()) in
+            List.map (fun lv -> valid_blocks bs_tok (List.map split_of (String.split_on_char ',' lv))) (String.split_on_char ';' splits_tok) in let p_parity_absent = bits (next ()) in let p_parity_resize = bits (next ()) in let p_parity_modified = bits (next ()) in
         let p_prehash_fail = nb () in let sync_work = nb () in let p_sync_errors = nb () in let p_array_empty = nb () in
         let p_scrub_stripes = ni () in let p_scrub_errors = nb () in let p_check_errors = nb () in let p_diff = nb () in
         if next () <> "I" then failwith "I";
@@ -94,7 +94,7 @@ let () =
         let p_pool_changes = List.init nl (fun _ -> ni ()) in
         let p = { p_conf_ok; p_lock_free; p_ncontent; p_level; p_content_found; p_content_ok; p_read_need_write; p_bs_mismatch;
                   p_hs_mismatch; p_unknown_disk; p_uuid_changes; p_disks; p_scan_need_write; p_blockmax; p_used; p_parity_access; p_parity_open;
-                  p_parity_blocks; p_parity_resize; p_parity_modified; p_prehash_fail; p_sync_stripes = (if sync_work then [N0] else []);
+                  p_parity_blocks; p_parity_absent; p_parity_resize; p_parity_modified; p_prehash_fail; p_sync_stripes = (if sync_work then [N0] else []);
                   p_sync_errors; p_array_empty; p_scrub_stripes; p_scrub_errors; p_check_errors; p_diff; p_fix_items;
                   p_fix_parity; p_fix_resize; p_touch; p_pool_conf; p_pool_changes } in
         let ((effs, reps), e) = run_full c o p in
